@@ -31,7 +31,7 @@ func init() {
 		ID:    "C16",
 		Level: "exploration",
 		Rule: "each case builds a local chain and a competing chain on real producing nodes and offers seeded deliveries to a real node: extensions, forks at depth 1..35, shorter/equal/longer side chains, " +
-			"an invalid element of 10 kinds at a seeded position, duplicates, overlaps with the known prefix, non-contiguous batches, gaps above the frontier, empty batches; " +
+			"an invalid element of 12 kinds (rotating, so that every kind is applied in every run) at a seeded position, duplicates, overlaps with the known prefix, non-contiguous batches, gaps above the frontier, empty batches; " +
 			"distinct_nontrivial counts distinct (delivery shape, fork depth class, invalid kind, invalid position class, outcome) tuples",
 		Cases:            c16Cases,
 		Run:              c16Run,
